@@ -44,4 +44,7 @@ def putU32BE (b : List Nat) (v : Nat) : Except String (List Nat) :=
   if b.length < 4 then throw "index out of range"
   else pure ((((b.set 0 (v / 16777216 % 256)).set 1 (v / 65536 % 256)).set 2 (v / 256 % 256)).set 3 (v % 256))
 
+/-- bound on the iterations of a translated general `for` loop; when it is reached the translation throws -/
+def loopFuel : Nat := 1024
+
 end Go
